@@ -135,8 +135,10 @@ def check_dir(case):
 def lattice_for(tier):
     if tier != "thorough":
         return LONS, LATS
-    lons = sorted(set(LONS_SEAM + [i * 5.0 + 0.123 for i in range(72)] + [i * 45.0 for i in range(8)]))
-    lats = sorted(set(LATS + [i * 2.5 for i in range(-35, 36)] + [89.5, -89.5, 88.0, -88.0]))
+    lons = sorted(set(LONS_SEAM + [i * 2.0 + 0.123 for i in range(180)] + [i * 15.0 for i in range(24)]))
+    near = [1e-12, 1e-10, 1e-8, 1e-7, 1e-5, 1e-3, 0.1, 0.5, 1.0]
+    lats = sorted(set(LATS + [float(i) for i in range(-89, 90)] + [90.0 - x for x in near] + [-90.0 + x for x in near]
+                      + [x for x in near] + [-x for x in near]))
     return lons, lats
 
 
